@@ -90,6 +90,33 @@ func buildConcOps(st *trie.SlimTrie, qs []string, complete bool, i32 bool, small
 			})
 		}
 	}
+	if complete {
+		for t := 0; t < 4; t++ {
+			withVal := t%2 == 0
+			add("ScanFrom", func() string {
+				var b bytes.Buffer
+				n := 0
+				st.ScanFrom("", true, withVal, func(k, v []byte) bool {
+					fmt.Fprintf(&b, "%x=%x,", k, v)
+					n++
+					return n < 200
+				})
+				return b.String()
+			})
+			add("NewIter", func() string {
+				var b bytes.Buffer
+				nxt := st.NewIter("", true, withVal)
+				for i := 0; i < 200; i++ {
+					k, v := nxt()
+					if k == nil {
+						break
+					}
+					fmt.Fprintf(&b, "%x=%x,", k, v)
+				}
+				return b.String()
+			})
+		}
+	}
 	for t := 0; t < 6; t++ {
 		add("Stat", func() string { return fmt.Sprintf("%+v", *st.Stat()) })
 		add("Marshal", func() string { b, err := st.Marshal(); return fmt.Sprintf("%d %x %v", len(b), sha8(b), err) })
@@ -163,7 +190,17 @@ func runC11(ctx *Ctx, idx int) {
 	// ---- the shared instance
 	kindNo := instNo % 5
 	var ks KeySet
-	switch r.Intn(4) {
+	switch r.Intn(5) {
+	case 4:
+		// lopsided: shallow where a scan starts, much deeper further on (the
+		// scan stack has to grow while iterating)
+		k := []string{"a", "a0", "a1"}
+		c := string([]byte{byte('b' + r.Intn(20))})
+		for i := 1; i <= r.Range(30, 90); i++ {
+			k = append(k, rep(c, i))
+		}
+		k = append(k, "z", "zz")
+		ks = KeySet{"lopsided", sortUniq(k)}
 	case 0:
 		ks = KeySet{"small-alpha", genSmallAlpha(r)}
 	case 1:
